@@ -179,6 +179,19 @@ Definition api_i (rd : option sp) (inF outF : option sp) (b : list bstep) (s : i
     end
   end.
 
+(* pkg/api/annotation.go AddAnnotationsFile / AddAnnotationsMapFile / RemoveAnnotationsFile(inFile, outFile, …, incr = true):
+     if outFile != "" && inFile != outFile { tmpFile = outFile }          — STRING test; incr is ignored: the usual skeleton
+     else if incr { f := os.OpenFile(inFile, O_RDWR); …AsIncrement(f) }   — the increment is appended to the input's inode
+   (`b` is what the operation writes: the complete output in the first case, the increment in the second) *)
+Definition incr_api_i (x : sp) (outF : option sp) (b : list bstep) (s : ist) : rr unit :=
+  let inplace := match outF with None => true | Some o => sp_eqb x o end in
+  if inplace then
+    match open_rd x s with
+    | ROk i s => ROk tt (write i (output_of b) s)
+    | RErr e s => RErr e s
+    end
+  else api_i (Some x) (Some x) outF b s.
+
 (* pkg/api/file.go outputAliasesInputWith: Abs(in) == Abs(out), else both exist and os.SameFile *)
 Definition output_aliases_input (inF outF : sp) (s : ist) : bool :=
   if abs_eqb inF outF then true
@@ -270,5 +283,6 @@ Definition run_api_i (umask : N) := api_i fresh_ent_hi fresh_ino_hi umask.
 Definition run_copy_i (umask : N) := copy_file_i fresh_ent_hi fresh_ino_hi umask.
 Definition run_write_reader_i (umask : N) := write_reader_i fresh_ent_hi fresh_ino_hi umask.
 Definition run_aliases := output_aliases_input.
+Definition run_incr_api_i (umask : N) := incr_api_i fresh_ent_hi fresh_ino_hi umask.
 Definition run_multi_image_i (umask : N) := multi_image_i fresh_ent_hi fresh_ino_hi umask.
 Definition run_import_images_i (umask : N) := import_images_i fresh_ent_hi fresh_ino_hi umask.
